@@ -15,6 +15,7 @@ import (
 	"time"
 
 	"github.com/database64128/shadowsocks-go/conn"
+	"github.com/database64128/shadowsocks-go/ss2022"
 
 	"verifsim/props/svc"
 	"verifsim/props/util"
@@ -83,6 +84,8 @@ type target struct {
 }
 
 type session struct {
+	clientRefusedSession bool // the SS2022 harness client refused a new server session as "too many"
+
 	idx     int
 	user    int
 	end     *svc.UDPClientEnd
@@ -105,6 +108,10 @@ type sentPkt struct {
 }
 
 type run struct {
+	// chat holds, per (session, target), a way to send another datagram from that destination to
+	// the relay socket the session's datagrams came from (unsolicited traffic of a chatty peer)
+	chat map[[2]int]func()
+
 	s               *simrt.Sim
 	e               *svc.Env
 	f               Focus
@@ -186,6 +193,10 @@ func Run(s *simrt.Sim, f Focus) {
 		cs.Auth = true
 		cs.User = svc.User{Name: "relay", Password: "secret"}
 	}
+	if cs.Proto == svc.PSocks5 && s.GenChance(128) {
+		cs.Socks5PortPerAssoc = true
+		s.Probe("udprelay.socks5-port-per-association")
+	}
 	direct := cs.Proto == svc.PDirect
 
 	// --- network faults (never for C05: sizes and equality are judged on a clean network) ---
@@ -199,6 +210,7 @@ func Run(s *simrt.Sim, f Focus) {
 	w.TCPLatency = util.Pick(s, []time.Duration{0, 0, time.Millisecond, 20 * time.Millisecond}) // SOCKS5 associations take a while
 	w.DialDelay = util.Pick(s, []time.Duration{0, 0, 0, 5 * time.Millisecond})
 	w.SegP = util.Pick(s, []int{0, 128}) // recvmmsg batch fragmentation
+	s.SpinLimit = 100000                 // a relay task that keeps running without ever waiting is a livelock
 
 	// --- sessions, targets ------------------------------------------------------------------
 	nSess := 1 + s.ChooseBiased(5, 64)
@@ -240,6 +252,9 @@ func Run(s *simrt.Sim, f Focus) {
 		if !direct && kind >= 3 && s.GenChance(128) {
 			kind = 5 // behind a proxy any name will do
 		}
+		if direct && f != FocusC05 && t.idx > 0 && !rejected && sp.Proto != svc.PDirect && s.GenChance(20) {
+			kind = 7
+		}
 		switch kind {
 		case 0:
 			t.ip = netip.AddrPortFrom(tIP4[hk], port)
@@ -260,6 +275,13 @@ func Run(s *simrt.Sim, f Focus) {
 			t.ip = netip.AddrPortFrom(ip, port)
 			t.addr = conn.MustAddrFromDomainPort(name, port)
 			t.domain = true
+		case 7:
+			// port 0: the relay's own socket refuses to send there (EINVAL from sendmsg/sendmmsg);
+			// the datagram is lost, everything else must go on
+			t.addr = conn.AddrFromIPAndPort(tIP4[hk], 0)
+			t.unresolvable = true
+			s.Probe("udprelay.port-zero-target")
+			s.Fault("udp.send-error-port0")
 		case 6:
 			// a name that does not resolve: nothing addressed to it may arrive anywhere
 			t.addr = conn.MustAddrFromDomainPort(fmt.Sprintf("nx%d.example", t.idx), port)
@@ -411,6 +433,13 @@ func Run(s *simrt.Sim, f Focus) {
 				}
 			}
 			reply := makePayload(magicDown, t.sess, t.tgt, t.seq, rl)
+			if f == FocusC12 {
+				if r.chat == nil {
+					r.chat = map[[2]int]func(){}
+				}
+				small := makePayload(magicDown, t.sess, t.tgt, t.seq, tagLen)
+				r.chat[[2]int{t.sess, t.tgt}] = func() { p.Reply(want.ip, small) }
+			}
 			if err := p.Reply(want.ip, reply); err != nil {
 				var pe *svc.PackError
 				if !errors.As(err, &pe) {
@@ -462,17 +491,7 @@ func Run(s *simrt.Sim, f Focus) {
 			// genuine one follows. Nothing about the session may depend on that.
 			s.Probe("udprelay.forged-first-packet")
 			s.Fault("udp.forged-first-packet")
-			first := true
-			bit := s.Choose(8)
-			end.ForgeBefore = func(pkt []byte) []byte {
-				if !first || len(pkt) < 50 {
-					return nil
-				}
-				first = false
-				c := append([]byte(nil), pkt...)
-				c[len(c)-1-bit] ^= 1 << uint(bit)
-				return c
-			}
+			forgeNext(s, end)
 		}
 	}
 
@@ -524,6 +543,22 @@ func (r *run) send(se *session, t *target, length int, mustDeliver bool) *sentPk
 	return sp
 }
 
+// forgeNext makes the next datagram of the client end be preceded by a tampered copy of itself
+// (authentication of the copy fails; the genuine datagram follows).
+func forgeNext(s *simrt.Sim, end *svc.UDPClientEnd) {
+	first := true
+	bit := s.Choose(8)
+	end.ForgeBefore = func(pkt []byte) []byte {
+		if !first || len(pkt) < 50 {
+			return nil
+		}
+		first = false
+		c := append([]byte(nil), pkt...)
+		c[len(c)-1-bit] ^= 1 << uint(bit)
+		return c
+	}
+}
+
 // drain reads whatever arrived at the session's socket(s) and judges every reply.
 func (r *run) drain(se *session, wait time.Duration) int {
 	n := 0
@@ -541,6 +576,12 @@ func (r *run) drain(se *session, wait time.Duration) int {
 				var pe *svc.PackError
 				if errors.As(err, &pe) {
 					r.s.Param(fmt.Sprintf("unreadable-reply-s%d", se.idx), pe.Err.Error())
+					r.s.Logf("session %d: unreadable datagram from the relay: %s", se.idx, pe.Err.Error())
+					if errors.Is(pe.Err, ss2022.ErrTooManyServerSessions) {
+						// the harness client's own rule (one server session change per minute, counted
+						// from its first contact), not a fault of the relay
+						se.clientRefusedSession = true
+					}
 					if !r.faulty && r.f != FocusC12 {
 						r.fail("reply-unreadable", "session %d received a datagram from the relay that its protocol client cannot unpack: %v", se.idx, pe.Err)
 						return n
@@ -551,6 +592,7 @@ func (r *run) drain(se *session, wait time.Duration) int {
 			}
 			n++
 			t := parsePayload(payload)
+			r.s.Logf("session %d: reply seq=%d tgt=%d len=%d", se.idx, t.seq, t.tgt, len(payload))
 			if t.magic != magicDown || !t.ok {
 				if r.f != FocusC12 {
 					r.fail("payload-changed{downlink}", "session %d received a reply of %d bytes that no destination sent (or a truncated/altered one)", se.idx, len(payload))
@@ -631,6 +673,12 @@ func (r *run) traffic() {
 				r.drainAll(200 * time.Millisecond)
 				se.oldSock = se.end.Rebind(e.Client, netip.Addr{})
 				s.Probe("c11.client-address-change")
+				if s.GenChance(128) {
+					// the first datagram from the new address is one that fails authentication
+					s.Probe("c11.address-change-with-forged-first")
+					s.Fault("udp.forged-first-packet")
+					forgeNext(s, se.end)
+				}
 				sp := r.send(se, se.targets[0], 100, true)
 				if sp != nil {
 					sp.sockGen = 1
